@@ -283,12 +283,7 @@ func (e *Env) lookup(name string) (SymVal, bool) {
 			return mkMath(t), true
 		}
 		// first use: ghost state starts as an unconstrained entry value
-		n := smtName("ghost0!" + name)
-		if !e.c.compDeclared[n] {
-			e.c.compDeclared[n] = true
-			e.c.declare(n, "Int")
-		}
-		return mkMath(n), true
+		return mkMath(e.c.ghostEntry(name)), true
 	}
 	if v, ok := e.c.lookupVar(e.st, name, e.at); ok {
 		return v, true
@@ -997,8 +992,8 @@ func (e *Env) call(ex *ast.CallExpr) (SymVal, error) {
 			return SymVal{}, fmt.Errorf("%s is for arith int only", name)
 		}
 		ufn := map[string]string{"xor": "bxor", "and": "band", "or": "bor"}[name[:len(name)-2]] + "_" + name[len(name)-2:]
-		if c.strlits["$uf:"+ufn] == "" {
-			c.strlits["$uf:"+ufn] = "1"
+		if c.flags["$uf:"+ufn] == "" {
+			c.flags["$uf:"+ufn] = "1"
 			fmt.Fprintf(&c.sb, "(declare-fun %s (Int Int) Int)\n", ufn)
 		}
 		return mkMath(app(ufn, a.S, b.S)), nil
@@ -1034,6 +1029,89 @@ func (e *Env) call(ex *ast.CallExpr) (SymVal, error) {
 			return SymVal{}, err
 		}
 		return SymVal{K: KFloat, S: app("fp.abs", x.S)}, nil
+	case "refof":
+		a, err := arg(0)
+		if err != nil {
+			return SymVal{}, err
+		}
+		if a.K == KIface {
+			return SymVal{K: KRef, S: app("iref", a.S)}, nil
+		}
+		return a, nil
+	case "sub":
+		a, err := arg(0)
+		if err != nil {
+			return SymVal{}, err
+		}
+		i, err := arg(1)
+		if err != nil {
+			return SymVal{}, err
+		}
+		r := a.S
+		if a.K == KIface {
+			r = app("iref", a.S)
+		} else if a.K != KRef {
+			return SymVal{K: KRef, S: "nil"}, nil
+		}
+		return SymVal{K: KRef, S: app("fld", r, i.S)}, nil
+	case "only", "unchanged":
+		// only(Type.field, ref): the component changed at most at ref since old state
+		// unchanged(Type.field): the component is identical to the old state
+		sel, ok := ex.Args[0].(*ast.SelectorExpr)
+		if !ok {
+			return SymVal{}, fmt.Errorf("%s(Type.field, ...)", name)
+		}
+		tn, ok := sel.X.(*ast.Ident)
+		if !ok {
+			return SymVal{}, fmt.Errorf("%s(Type.field, ...)", name)
+		}
+		var t types.Type
+		for _, p := range e.pkgs() {
+			if o := p.Pkg.Scope().Lookup(tn.Name); o != nil {
+				if tnn, ok := o.(*types.TypeName); ok {
+					t = tnn.Type()
+					break
+				}
+			}
+		}
+		if t == nil {
+			return SymVal{}, fmt.Errorf("%s: unknown type %s", name, tn.Name)
+		}
+		stru, ok := t.Underlying().(*types.Struct)
+		if !ok {
+			return SymVal{}, fmt.Errorf("%s: %s is not a struct", name, tn.Name)
+		}
+		var locs []leafLoc
+		for i := 0; i < stru.NumFields(); i++ {
+			if stru.Field(i).Name() == sel.Sel.Name {
+				locs = c.fieldLocs("nil", typeKey(t), stru, i)
+			}
+		}
+		if locs == nil {
+			return SymVal{}, fmt.Errorf("%s: no field %s", name, sel.Sel.Name)
+		}
+		var facts []string
+		for _, l := range locs {
+			srt := c.sortOf(l.k, l.t)
+			hn := c.comp(e.st, l.comp, srt)
+			ho := c.comp(e.old, l.comp, srt)
+			if name == "unchanged" {
+				facts = append(facts, sEq(hn, ho))
+				continue
+			}
+			r, err := arg(1)
+			if err != nil {
+				return SymVal{}, err
+			}
+			rs := r.S
+			if r.K == KIface {
+				rs = app("iref", r.S)
+			} else if r.K != KRef {
+				rs = "nil"
+			}
+			facts = append(facts, sEq(hn, app("store", ho, rs, app("select", hn, rs))))
+		}
+		return mkBool(sAnd(facts...)), nil
 	case "isNone":
 		a, err := arg(0)
 		if err != nil {
